@@ -527,3 +527,26 @@ for _nm, _line in _DECL_FORMS.items():
     REG.lemma(f"puml_declaration_regex_accepts_{_nm}", params=dict(a="Str", t="Str"), requires=["puml_name(a)", "puml_word(t)"],
               ensures=[f"puml_decl_line({_line})"], view="string", properties=["C06"],
               note="the component-declaration regex built by the current source matches this documented declaration form as a whole line")
+
+
+# ---- direction: a right-arrow line is matched (as a whole line) by the FIRST alternative only, a left-arrow line by the SECOND only (HI translation: an
+# over-approximation of the alternative's language, so 'not matched' is sound). Hence for '[a] --> [b]' the groups dependor2 / dependee2 are None and the pair
+# is read from dependor1 / dependee1, and conversely. WHICH substrings the two groups of the matching alternative capture is not proved (see notes).
+def _puml_alt(which, i, hi):
+    import re._parser as sp, re._constants as sc
+    pat, flags = _puml_regexes()[which]
+    tree = list(sp.parse(pat, flags))
+    if len(tree) != 1 or tree[0][0] is not sc.BRANCH or len(tree[0][1][1]) != 2:
+        raise ValueError("the line regex is expected to be one top-level alternation of two alternatives")
+    return _re2smt(tree[0][1][1][i], hi)
+
+
+REG.specfuns["puml_dep_alt1"] = lambda eng, st, line: vbool(z3.InRe(line.x, _puml_alt("dependency", 0, True)))
+REG.specfuns["puml_dep_alt2"] = lambda eng, st, line: vbool(z3.InRe(line.x, _puml_alt("dependency", 1, True)))
+REG.specfuns["puml_dep_alt1_lo"] = lambda eng, st, line: vbool(z3.InRe(line.x, _puml_alt("dependency", 0, False)))
+REG.specfuns["puml_dep_alt2_lo"] = lambda eng, st, line: vbool(z3.InRe(line.x, _puml_alt("dependency", 1, False)))
+for _nm, _line in _DEP_FORMS.items():
+    _right = _nm.endswith("right")
+    REG.lemma(f"puml_dependency_regex_direction_{_nm}", params=dict(a="Str", b="Str", t="Str"), requires=["puml_name(a)", "puml_name(b)", "puml_word(t)"],
+              ensures=[f"puml_dep_alt{1 if _right else 2}_lo({_line})", f"not puml_dep_alt{2 if _right else 1}({_line})"], view="string", properties=["C06"],
+              note="the arrow direction selects the alternative: the other alternative does not match the line, so its dependor / dependee groups are None")
